@@ -102,6 +102,18 @@ REGISTRY["C09"] = dict(
     explanation="Clauses C09-a..e of DESIGN.md §3, decided on MIR/HIR facts of the current tree. NOT decided: equivalence laws through fuzzy numeric comparison, values of comparisons.",
     assumptions=TRUSTED,
 )
+REGISTRY["C17"] = dict(
+    module="c17",
+    level="other",
+    technique="static analysis: must-depend guard facts at every construction of MediaQueryMergeResult::Empty/Unrepresentable; arm-action table extraction of merge_media_queries and visit_media_rule",
+    claim=(
+        "Decision-structure clauses: every Empty result of MediaQuery::merge is control-dependent on this_type == other_type, on exactly one query being negated and on the subset test; "
+        "double negation with different types is Unrepresentable; merge_media_queries maps Empty/Unrepresentable/Success to skip/None/push over the cartesian product; "
+        "visit_media_rule drops an empty intersection before creating a node and keeps unmergeable queries nested. NOT decided: truth-table correctness of the full seven-way split."
+    ),
+    explanation="Clauses of DESIGN.md §3 C17 on MIR facts of the current tree. NOT decided: that the merged query is the logical intersection for all environments.",
+    assumptions=TRUSTED,
+)
 
 UNBUILT = "check not built yet in this session (design in DESIGN.md §3); not claimed until its rules run clean on the pinned tree"
 NOT_APPLICABLE = {
